@@ -15,7 +15,7 @@ PARTIAL = [
     "eval_rhs and rate invariance of every explicit one-step scheme (Euler and arbitrary explicit Runge-Kutta tableaux, autonomous and time-dependent histories)",
 ]
 ASSUMPTIONS = ["max |eig| of the strain rate is homogeneous of degree one (external eigvalsh; checked on every rhs evaluation compared)"]
-JIT_TWIN = ('update',)   # groups of harness/jittwin.py: the numba-compiled code is run on the same battery and compared
+JIT_TWIN = ('update', 'large_update')   # groups of harness/jittwin.py: the numba-compiled code is run on the same battery and compared
 TRUSTED = ["harness/solver.py scenario driver"]
 
 # paired real runs must agree within the accumulated solver tolerance of the property; on the present code they agree to ~1e-9,
